@@ -234,7 +234,7 @@ impl<const N: u32> PxE2<{ N }> {
                     if reg_z + 4 <= N {
                         bit_n_plus_one =
                             ((0x_8000_0000_0000_0000_u64 >> (N - reg_z - 2)) & frac64_z) != 0;
-                        bits_more =
+                        bits_more |=
                             ((0x_7FFF_FFFF_FFFF_FFFF_u64 >> (N - reg_z - 2)) & frac64_z) != 0;
                         frac_z &= Self::mask();
                     } else {
